@@ -338,7 +338,8 @@ def run_extension(ctx, stats):
     # --- coverage
     refit, seen = 0, set()
     st = dict(sessions=nsess, calls=0, calls_rejected=0, cold_refits_same_n=0, cold_refits_other_shape=0,
-              warm_calls=0, calibrations_forced=len(calib), calibrated_values=set(), guards=nguard,
+              warm_calls=0, rejected_for_switching_point=0, warm_right_after_rejected_cold=0,
+              calibrations_forced=len(calib), calibrated_values=set(), guards=nguard,
               guards_accepted=sum(1 for r in gres if not r["error"]),
               guard_errors={}, float_cases=nfloat, float_with_earlier_fit=sum(1 for c in floats if c["prefit"]),
               float_warm=sum(1 for c in floats if c["warm_from"]),
@@ -351,6 +352,8 @@ def run_extension(ctx, stats):
             st["calls"] += 1
             st["calls_rejected"] += "error" in rr
             st["warm_calls"] += cc["kind"] == "warm"
+            st["rejected_for_switching_point"] += bool(cc.get("rejected_ff"))
+            st["warm_right_after_rejected_cold"] += bool(cc.get("after_rejected")) and "error" not in rr
             if rr.get("calibrated") and rr.get("ff"):
                 st["calibrated_values"].add(rr["ff"][0] * 128 // rr["ff"][1])
             if cc["kind"] == "cold" and "error" not in rr:
